@@ -103,13 +103,23 @@ def scen_compare(ctx, M):
     secs = ctx.int('secs', -32 * 10 ** 10, 32 * 10 ** 10)
     adv = ctx.int('adv_us', -365 * DAY, 365 * DAY)
     adv_s = ctx.int('adv_s', -10 ** 7, 10 ** 7)
+    # fractional second counts: secs + k/64 (a whole number of microseconds,
+    # exactly representable as a float; negative ones via negative secs)
+    k64 = ctx.choice('frac64', [0, 32, 16, 1, 63])
     dt = mk_dt(ctx, t, off)
     t_utc = t - off if aware else t
+    secs_us = secs * US + k64 * 15625
+    if k64 == 0:
+        secs_v = secs
+    elif ctx.sym:
+        secs_v = symdt.DyadicFloat(secs, k64, 6)
+    else:
+        secs_v = secs + k64 / 64.0
     # every intermediate instant stays representable
     ctx.assume(AND(now + adv >= LO, now + adv <= HI,
                    now + adv + adv_s * US >= LO,
                    now + adv + adv_s * US <= HI,
-                   now + secs * US >= 0, now + secs * US <= symdt.MAX_US))
+                   now + secs_us >= 0, now + secs_us <= symdt.MAX_US))
     tu.set_time_override(mk_dt(ctx, now))
     try:
         ctx.check('C12-utcnow-is-override',
@@ -117,14 +127,14 @@ def scen_compare(ctx, M):
         ctx.check('C12-utcnow-ts',
                   h.veq(tu.utcnow_ts() == (now - symdt.EPOCH_US) // US,
                         True))
-        older = tu.is_older_than(dt, secs)
-        newer = tu.is_newer_than(dt, secs)
-        soon = tu.is_soon(dt, secs)
+        older = tu.is_older_than(dt, secs_v)
+        newer = tu.is_newer_than(dt, secs_v)
+        soon = tu.is_soon(dt, secs_v)
         ctx.check('C12-is-older-than',
-                  h.veq(older, now - t_utc > secs * US))
+                  h.veq(older, now - t_utc > secs_us))
         ctx.check('C12-is-newer-than',
-                  h.veq(newer, t_utc - now > secs * US))
-        ctx.check('C12-is-soon', h.veq(soon, t_utc <= now + secs * US))
+                  h.veq(newer, t_utc - now > secs_us))
+        ctx.check('C12-is-soon', h.veq(soon, t_utc <= now + secs_us))
         if ctx.sym:
             delta = symdt.timedelta(_us=adv)
         else:
